@@ -142,6 +142,36 @@ def constant_fields(ctx, rule):
                              'the fields stored as arrays: for a field that is constant through the file (kept once, in the '
                              'header template) the lookup raises KeyError where segyio returns the constant array' % U(s.value),
                              line=s.lineno)
+            # the answer for a field that is not stored: one entry per trace / grid position.  A length taken from a size
+            # slot of the file header is 0 for the files that store no header arrays at all (legacy files).
+            for r in ast.walk(f.node):
+                if not (isinstance(r, ast.Return) and isinstance(r.value, ast.Call)):
+                    continue
+                if U(r.value.func).split('.')[-1] not in ('full', 'zeros', 'ones', 'repeat', 'full_like') or not r.value.args:
+                    continue
+                rp = fm.paths_at(r)
+                if not rp or not all(any((a[0] == 'T' and 'not in' in str(a[1]) and VARIANT_STORE in str(a[1])) or
+                                         (a[0] == 'F' and ' in ' in str(a[1]) and VARIANT_STORE in str(a[1])) or
+                                         (a[0] == 'notin' and str(a[2]).endswith(VARIANT_STORE)) for a in facts) for facts in rp):
+                    continue
+                ln = r.value.args[1] if U(r.value.func).split('.')[-1] == 'repeat' and len(r.value.args) > 1 else r.value.args[0]
+                txt = U(ln)
+                for _ in range(3):
+                    d = fm.resolve_def(txt, rp[0]) if isinstance(ln, ast.Name) else None
+                    if d is None:
+                        break
+                    txt = d
+                    try:
+                        ln = ast.parse(d, mode='eval').body
+                    except SyntaxError:
+                        break
+                n += 1
+                if 'bytes' in txt or 'header_entry' in txt or 'padded' in txt or 'diskblocks' in txt:
+                    ctx.fail(rule, f, r, 'the constant array returned for a field that is not stored has `%s` entries: a size slot of '
+                             'the file header, which is 0 in files that store no header arrays (legacy files) - the accessor then '
+                             'returns an empty array instead of one value per trace' % txt[:60], line=r.lineno)
+                else:
+                    ctx.ok(rule, f, r, 'constant answer has `%s` entries' % txt[:50])
     ctx.floor(rule, 1, 'lookups of a caller-supplied field in the variant-header store')
 
 
